@@ -615,6 +615,7 @@ package bluemonday
 //@   reveal wfRegex, wfInner, wfURLPols
 //@   requires wfp(p)
 //@   ensures wfp(p) && p.initialized
+//@   ensures[C03,C17] p.requireParseableURLs
 
 //@ func (*bluemonday.Policy).AllowStandardAttributes
 //@   reveal wfRegex, wfInner, wfURLPols
@@ -630,11 +631,13 @@ package bluemonday
 //@   reveal wfRegex, wfInner, wfURLPols
 //@   requires wfp(p)
 //@   ensures wfp(p) && p.initialized
+//@   ensures[C03,C17] p.requireParseableURLs
 
 //@ func (*bluemonday.Policy).AllowDataURIImages
 //@   reveal wfRegex, wfInner, wfURLPols
 //@   requires wfp(p)
 //@   ensures wfp(p) && p.initialized
+//@   ensures[C03,C17] p.requireParseableURLs
 
 //@ func (*bluemonday.Policy).AllowLists
 //@   reveal wfRegex, wfInner, wfURLPols
